@@ -178,6 +178,8 @@ def run(case, rec):
             if sorted(ids(got)) != sorted(ids(branch_pre)):
                 rec.fail(f"iter:{m.value}:not-a-permutation", {"got": names(got), "exp": names(branch_pre)})
 
+    if rec.failed:
+        return  # never drive a tree that already misbehaved any further
     # ---- visit ---------------------------------------------------------------------
     def visit(m, add_self, cb, memo=None):
         with warnings.catch_warnings():
@@ -217,6 +219,9 @@ def run(case, rec):
                 rec.fail(f"visit:{m.value}:memo-not-passed")
 
             for pos, x in enumerate(exp):
+                if rec.failed:
+                    rec.evals += ev
+                    return
                 # --- stop at x
                 for fname, mk, val in STOP_FORMS:
                     calls = []
